@@ -104,6 +104,11 @@ pub fn render(v: &Value) -> String {
       utils.insert("u".into(), json!({"kind": "call_expression", "nthChild": {"position": 1, "ofRule": {"matches": "w"}}}));
       utils.insert("w".into(), json!({"matches": "u"}));
     }
+    "global_self_via_local_utils" => {
+      // read as the global utility file `gen`, the local util refers back to the file's own id
+      rule.insert("matches".into(), json!("u"));
+      utils.insert("u".into(), json!({"any": [{"kind": "number"}, {"matches": "gen"}]}));
+    }
     "cycle_via_relation" => {
       rule.insert("matches".into(), json!("u"));
       utils.insert("u".into(), json!({"any": [{"kind": "number"}, {"has": {"matches": "u", "stopBy": "end"}}, {"inside": {"matches": "u"}}]}));
@@ -164,6 +169,15 @@ pub fn render(v: &Value) -> String {
     "clash_with_util" => { doc.insert("rewriters".into(), json!([{"id": "u", "rule": {"kind": "number"}, "fix": "N"}])); utils.insert("u".into(), json!({"kind": "number"})); }
     // rewriters that are used: their fixes widen the edit (expandStart / expandEnd) beyond the text being rewritten,
     // resp. overlap each other
+    "self_on_same_node" => {
+      doc.insert("rewriters".into(), json!([{"id": "rw", "rule": {"pattern": "$B"}, "transform": {"R": {"rewrite": {"source": "$B", "rewriters": ["rw"]}}}, "fix": "<$R>"}]));
+      let mut t = doc.get("transform").and_then(|t| t.as_object().cloned()).unwrap_or_default();
+      t.insert("RW".into(), json!({"rewrite": {"source": "$A", "rewriters": ["rw"]}}));
+      doc.insert("transform".into(), Value::Object(t));
+      if !doc.contains_key("fix") {
+        doc.insert("fix".into(), json!("bar($RW)"));
+      }
+    }
     c @ ("expand_start_outside" | "expand_end_outside" | "expand_both_joined" | "used_overlapping") => {
       let fix = match c {
         "expand_start_outside" => json!({"template": "N", "expandStart": {"regex": "."}}),
@@ -295,6 +309,82 @@ fn run_modes(id: &str, text: &str, scratch: &str) -> Vec<Value> {
   out
 }
 
+/// a project whose sgconfig.yml is assembled from value classes (spec/RuleDocGen.tla CfgClasses); scan and test
+fn run_config(id: &str, v: &Value, scratch: &str) -> Vec<Value> {
+  let mut out = vec![];
+  let mut cfg = Map::new();
+  let p = Project::new(&format!("{scratch}/{id}-cfgdoc"));
+  match s(v, "ruleDirs").as_str() {
+    "valid" => { cfg.insert("ruleDirs".into(), json!(["rules"])); }
+    "empty" => { cfg.insert("ruleDirs".into(), json!([])); }
+    "nonexistent" => { cfg.insert("ruleDirs".into(), json!(["no-such-dir"])); }
+    "string_type" => { cfg.insert("ruleDirs".into(), json!("rules")); }
+    "two_dirs" => { cfg.insert("ruleDirs".into(), json!(["rules", "more-rules"])); p.write("more-rules/m.yml", br#"{"id": "more", "language": "JavaScript", "rule": {"pattern": "bar($A)"}}"#); }
+    _ => {}
+  }
+  match s(v, "utilDirs").as_str() {
+    "valid" => { cfg.insert("utilDirs".into(), json!(["utils"])); }
+    "empty" => { cfg.insert("utilDirs".into(), json!([])); }
+    "nonexistent" => { cfg.insert("utilDirs".into(), json!(["no-such-utils"])); }
+    "string_type" => { cfg.insert("utilDirs".into(), json!("utils")); }
+    _ => {}
+  }
+  match s(v, "testConfigs").as_str() {
+    "valid" => { cfg.insert("testConfigs".into(), json!([{"testDir": "tests"}])); }
+    "empty" => { cfg.insert("testConfigs".into(), json!([])); }
+    "no_testdir" => { cfg.insert("testConfigs".into(), json!([{"snapshotDir": "snaps"}])); }
+    "snapshot_dir" => { cfg.insert("testConfigs".into(), json!([{"testDir": "tests", "snapshotDir": "snaps"}])); }
+    "nonexistent_dir" => { cfg.insert("testConfigs".into(), json!([{"testDir": "no-such-tests"}])); }
+    _ => {}
+  }
+  match s(v, "languageGlobs").as_str() {
+    "valid" => { cfg.insert("languageGlobs".into(), json!({"javascript": ["*.mjsx"]})); }
+    "empty" => { cfg.insert("languageGlobs".into(), json!({})); }
+    "unknown_language" => { cfg.insert("languageGlobs".into(), json!({"klingon": ["*.kl"]})); }
+    "string_type" => { cfg.insert("languageGlobs".into(), json!({"javascript": "*.mjsx"})); }
+    "narrow" => { cfg.insert("languageGlobs".into(), json!({"tsx": ["*.view.ts"], "javascript": ["*.view.ts"]})); }
+    _ => {}
+  }
+  match s(v, "languageInjections").as_str() {
+    "valid" => { cfg.insert("languageInjections".into(), json!([{"hostLanguage": "js", "rule": {"pattern": "css`$CONTENT`"}, "injected": "css"}])); }
+    "empty" => { cfg.insert("languageInjections".into(), json!([])); }
+    "unknown_host" => { cfg.insert("languageInjections".into(), json!([{"hostLanguage": "klingon", "rule": {"pattern": "css`$CONTENT`"}, "injected": "css"}])); }
+    "bad_rule" => { cfg.insert("languageInjections".into(), json!([{"hostLanguage": "js", "rule": {"pattern": "css`$OTHER`"}, "injected": "css"}])); }
+    "no_injected" => { cfg.insert("languageInjections".into(), json!([{"hostLanguage": "js", "rule": {"pattern": "css`$CONTENT`"}}])); }
+    _ => {}
+  }
+  match s(v, "customLanguages").as_str() {
+    "empty" => { cfg.insert("customLanguages".into(), json!({})); }
+    "missing_library" => { cfg.insert("customLanguages".into(), json!({"mylang": {"libraryPath": "no-such-lib.so", "extensions": ["ml"]}})); }
+    _ => {}
+  }
+  p.write("sgconfig.yml", serde_json::to_string(&Value::Object(cfg)).unwrap().as_bytes());
+  p.write("rules/r.yml", br#"{"id": "r", "language": "JavaScript", "severity": "warning", "rule": {"pattern": "foo($A)"}, "fix": "bar($A)"}"#);
+  p.write("utils/u.yml", br#"{"id": "gu", "language": "JavaScript", "rule": {"kind": "number"}}"#);
+  p.write("tests/r-test.yml", br#"{"id": "r", "valid": ["bar(1)"], "invalid": ["foo(bar, 1)"]}"#);
+  let snapdir = if s(v, "testConfigs") == "snapshot_dir" { "snaps" } else { "tests/__snapshots__" };
+  match s(v, "snapshots").as_str() {
+    // a snapshot whose id has no test case; a snapshot file that is not a snapshot
+    "orphan" => { p.write(&format!("{snapdir}/ghost-snapshot.yml"), b"id: ghost\nsnapshots:\n  \"1\":\n    labels:\n    - source: \"1\"\n      style: primary\n      start: 0\n      end: 1\n"); }
+    "garbage" => { p.write(&format!("{snapdir}/r-snapshot.yml"), b"- not\n- a: snapshot\n"); }
+    _ => {}
+  }
+  for (n, t) in TEXTS {
+    p.write(&format!("src/{n}"), t.as_bytes());
+  }
+  p.write("src/w.view.ts", b"foo(1);\nconst s = css`a { color: red }`;\n");
+  let mut push = |mode: &str, o: cli::CliOut| {
+    out.push(json!({"id": id, "mode": mode, "code": o.code, "outcome": classify(o.code, &o.stderr),
+      "stderr": o.stderr.chars().take(240).collect::<String>()}));
+  };
+  push("config-scan", run_sgv(&["scan", "--json=stream"], &p.root, None, 15, &[]));
+  push("config-test", run_sgv(&["test"], &p.root, None, 15, &[]));
+  push("config-test-update", run_sgv(&["test", "-U"], &p.root, None, 15, &[]));
+  push("config-test-again", run_sgv(&["test"], &p.root, None, 15, &[]));
+  p.remove();
+  out
+}
+
 fn mutate(text: &str, rng: &mut Rng) -> String {
   let b = text.as_bytes();
   match rng.below(5) {
@@ -312,7 +402,7 @@ fn mutate(text: &str, rng: &mut Rng) -> String {
   }
 }
 
-pub fn drive(vectors: &str, seed: u64, out: &str, thorough: bool) {
+pub fn drive(vectors: &str, cfg_vectors: Option<&str>, seed: u64, out: &str, thorough: bool) {
   let mut rng = Rng::new(seed ^ 0xC11);
   let all = util::read_ndjson(vectors);
   let stride = if thorough { 1 } else { (all.len() / 420).max(1) };
@@ -335,7 +425,26 @@ pub fn drive(vectors: &str, seed: u64, out: &str, thorough: bool) {
   }
   let scratch = format!("/var/tmp/agv-c11-{}", std::process::id());
   std::fs::create_dir_all(&scratch).unwrap();
-  let results = cli::par_map(&cases, 14, |_, (id, text, _)| run_modes(id, text, &scratch));
+  let mut results = cli::par_map(&cases, 14, |_, (id, text, _)| run_modes(id, text, &scratch));
+  // project configurations: all single deviations always, pairs by stride
+  if let Some(cv) = cfg_vectors {
+    let all_cfg = util::read_ndjson(cv);
+    let cstride = if thorough { 1 } else { 4 };
+    let defaults = [("ruleDirs", "valid"), ("utilDirs", "absent"), ("testConfigs", "valid"), ("languageGlobs", "absent"), ("languageInjections", "absent"), ("customLanguages", "absent"), ("snapshots", "none")];
+    let picked: Vec<(String, Value)> = all_cfg.iter().enumerate().filter(|(i, v)| {
+      let dev = defaults.iter().filter(|(k, d)| v[*k].as_str() != Some(*d)).count();
+      dev <= 1 || (i + seed as usize) % cstride == 0
+    }).map(|(i, v)| (format!("cfg{i}"), v.clone())).collect();
+    let cres = cli::par_map(&picked, 14, |_, (id, v)| run_config(id, v, &scratch));
+    for ((id, v), rs) in picked.iter().zip(cres.into_iter()) {
+      let mut d = v.clone();
+      d["config"] = json!(true);
+      d["matches"] = json!("n/a");
+      d["rewriters"] = json!("n/a");
+      cases.push((id.clone(), serde_json::to_string(v).unwrap(), d));
+      results.push(rs);
+    }
+  }
   let _ = std::fs::remove_dir_all(&scratch);
   let mut w = NdWriter::new(out);
   let mut runs = 0;
